@@ -756,6 +756,83 @@ theorem getDelta_ok [Sub α] {m : StateModel α} {prev next : List α} {name : S
         simp only [Option.some.injEq] at hs' hs2'
         subst hs'; subst hs2'; rfl
 
+/-! ### when `extend` succeeds -/
+
+/-- the names `extend` records: an entry whose name is already held (by the model or by an earlier
+    entry) by a feature that is not `==` the entry's -/
+def kindChanges (l : List (String × StateFeature α)) :
+    List (String × StateFeature α) → List String
+  | [] => []
+  | (name, new) :: rest =>
+    (match Spec.get l name with
+      | some o => if !(o.eqv new) then [name] else []
+      | none => []) ++ kindChanges (Spec.insert l name new) rest
+
+theorem extendLoop_snd (map : Container String (StateFeature α)) (h : Container.Inv map)
+    (ow : List String) (entries : List (String × StateFeature α)) :
+    (extendLoop map ow entries).2 = ow ++ kindChanges (Container.abs map) entries := by
+  induction entries generalizing map ow with
+  | nil => simp [extendLoop, kindChanges]
+  | cons e r ih =>
+    obtain ⟨name, new⟩ := e
+    obtain ⟨hi, ha, ho⟩ := Container.insert_refines h name new
+    simp only [extendLoop, kindChanges]
+    rw [ih _ hi, ha, ho]
+    cases Spec.get (Container.abs map) name with
+    | none => simp
+    | some o => by_cases hq : o.eqv new <;> simp [hq]
+
+theorem extend_ok_iff_kindChanges {m : StateModel α} (h : WF m)
+    (entries : List (String × StateFeature α)) :
+    (∃ m', m.extend entries = .ok m') ↔ kindChanges (feats m) entries = [] := by
+  have h0 := Container.fromIter_refines m.map.iter
+  rw [Container.iter_abs h, Spec.insertAll_nil_of_nodup _ (Container.abs_keys_nodup h)] at h0
+  have hs := extendLoop_snd (Container.fromIter m.map.iter) (by rw [Container.iter_abs h]; exact h0.1) [] entries
+  rw [Container.iter_abs h] at hs
+  simp only [extend]
+  rw [Container.iter_abs h, hs, h0.2]
+  simp only [nil_append, feats]
+  split_ifs with hc
+  · simp only [List.isEmpty_iff] at hc
+    simp [hc]
+  · simp only [List.isEmpty_iff] at hc
+    simp [hc]
+
+theorem kindChanges_eq_nil_iff (l : List (String × StateFeature α))
+    (entries : List (String × StateFeature α)) :
+    kindChanges l entries = [] ↔
+      ∀ j (hj : j < entries.length), ∀ o,
+        Spec.get (Spec.insertAll l (entries.take j)) (entries[j]).1 = some o →
+          o.eqv (entries[j]).2 = true := by
+  induction entries generalizing l with
+  | nil => simp [kindChanges]
+  | cons e r ih =>
+    obtain ⟨name, new⟩ := e
+    simp only [kindChanges, append_eq_nil_iff, ih]
+    constructor
+    · rintro ⟨h0, hr⟩ j hj o ho
+      cases j with
+      | zero =>
+        simp only [take_zero, Spec.insertAll, foldl_nil, getElem_cons_zero] at ho ⊢
+        rw [ho] at h0
+        by_cases hq : o.eqv new
+        · exact hq
+        · simp [hq] at h0
+      | succ k =>
+        simp only [take_succ_cons, getElem_cons_succ, Spec.insertAll, foldl_cons] at ho ⊢
+        exact hr k (by simpa using hj) o ho
+    · intro hall
+      refine ⟨?_, ?_⟩
+      · have := hall 0 (by simp)
+        simp only [take_zero, Spec.insertAll, foldl_nil, getElem_cons_zero] at this
+        cases hg : Spec.get l name with
+        | none => rfl
+        | some o => simp [this o hg]
+      · intro k hk o ho
+        have := hall (k + 1) (by simpa using hk) o
+        simp only [take_succ_cons, getElem_cons_succ, Spec.insertAll, foldl_cons] at this
+        exact this ho
+
 end StateModel
 
 end Compass
